@@ -59,11 +59,12 @@ Section Iso.
     destruct adm_facts as [HE [H1 [H2 _]]]. intros i j Hi Hj. cases i; cases j; entry;
     unfold iso3d, iso_entry, G, la, shear, lame1; cbv zeta; cbn [nth Nat.ltb Nat.leb Nat.eqb andb]; field; nzs.
   Qed.
-  Lemma kg_of_stiff_ok : kg_of_stiff K G = [K; G].
-  Proof. unfold kg_of_stiff. cbv zeta. repeat (f_equal; try field). Qed.
-  Lemma iso_defect_ok : Forall (fun x => x = 0) (iso_defect K G).
-  Proof. unfold iso_defect. cbv zeta. repeat (apply Forall_cons; [try reflexivity; field|]). apply Forall_nil. Qed.
 End Iso.
+
+Lemma kg_of_stiff_ok K G : kg_of_stiff K G = [K; G].
+Proof. unfold kg_of_stiff. cbv zeta. repeat (f_equal; try field). Qed.
+Lemma iso_defect_ok K G : Forall (fun x => x = 0) (iso_defect K G).
+Proof. unfold iso_defect. cbv zeta. repeat (apply Forall_cons; [try reflexivity; field|]). apply Forall_nil. Qed.
 
 (* e : C : e = K tr(e)^2 + 2 G dev(e):dev(e) for any isotropic stiffness, hence positive definiteness *)
 Lemma iso_quadratic_form la mu C e0 e1 e2 e3 e4 e5 : is_iso_stiffness 6 la mu C ->
